@@ -218,6 +218,18 @@ static int fragments_needed_one_data_local(xor_code_t *code_desc,
   return 0;
 }
 
+static int is_missing_idx(int *missing_idxs, int idx)
+{
+  int i = 0;
+  while (missing_idxs[i] > -1) {
+    if (missing_idxs[i] == idx) {
+      return 1;
+    }
+    i++;
+  }
+  return 0;
+}
+
 int xor_hd_fragments_needed(xor_code_t *code_desc, int *fragments_to_reconstruct, int *fragments_to_exclude, int *fragments_needed)
 {
   failure_pattern_t pattern = get_failure_pattern(code_desc, fragments_to_reconstruct);
@@ -255,19 +267,26 @@ int xor_hd_fragments_needed(xor_code_t *code_desc, int *fragments_to_reconstruct
 
     i = 0;
     j = 0;
+    // End of list
+    missing_idxs[j] = -1;
     while (fragments_to_reconstruct[i] > -1) {
-      missing_idxs[j] = fragments_to_reconstruct[i];
+      // an index named twice (in one list or in both) is one unavailable fragment
+      if (j < code_desc->k + code_desc->m && !is_missing_idx(missing_idxs, fragments_to_reconstruct[i])) {
+        missing_idxs[j] = fragments_to_reconstruct[i];
+        j++;
+        missing_idxs[j] = -1;
+      }
       i++;
-      j++;
     }
     i = 0;
     while (fragments_to_exclude[i] > -1) {
-      missing_idxs[j] = fragments_to_exclude[i];
+      if (j < code_desc->k + code_desc->m && !is_missing_idx(missing_idxs, fragments_to_exclude[i])) {
+        missing_idxs[j] = fragments_to_exclude[i];
+        j++;
+        missing_idxs[j] = -1;
+      }
       i++;
-      j++;
     }
-    // End of list
-    missing_idxs[j] = -1;
 
     pattern = get_failure_pattern(code_desc, missing_idxs);
 
